@@ -614,17 +614,387 @@ Section Forward.
     assert (N : nodupb (keys KW') = true) by (apply nodupb_NoDup, KW'_nodup).
     rewrite N. cbn [negb].
     rewrite !has_kind_T by discriminate. rewrite n_positional_T. fold va.
-    destruct va eqn:Hva; cbn [negb andb].
-    - destruct (has_kind KVarKw s) eqn:Hvk; cbn [negb andb].
-      + unfold T. rewrite <- Hva. apply rebind_walk; auto.
-      + unfold KW'. rewrite Hva. rewrite <- Hva at 1. rewrite fwd_kw_targets; auto. cbn [negb].
-        unfold T. rewrite <- Hva. apply rebind_walk; auto.
-    - assert (L : Nat.ltb (n_positional s) (List.length (fwd_pos false s b)) = false).
-      { apply PeanoNat.Nat.ltb_ge. rewrite <- Hva. apply fwd_pos_len; auto. }
-      rewrite L.
-      destruct (has_kind KVarKw s) eqn:Hvk; cbn [negb andb].
-      + unfold T. rewrite <- Hva. apply rebind_walk; auto.
-      + unfold KW'. rewrite Hva. rewrite <- Hva at 1. rewrite fwd_kw_targets; auto. cbn [negb].
-        unfold T. rewrite <- Hva. apply rebind_walk; auto.
+    assert (A2 : negb va && Nat.ltb (n_positional s) (List.length (fwd_pos va s b)) = false).
+    { apply andb_false_iff. destruct (Bool.bool_dec va true) as [Hva|Hva].
+      - left. now rewrite Hva.
+      - right. apply not_true_is_false in Hva. apply PeanoNat.Nat.ltb_ge. apply fwd_pos_len; auto. }
+    rewrite A2.
+    assert (A3 : negb (has_kind KVarKw s) &&
+                 negb (forallb (fun kv : name * value => kw_target T (fst kv)) KW') = false).
+    { apply andb_false_iff. destruct (has_kind KVarKw s) eqn:Hvk; [now left|right].
+      unfold KW'. rewrite fwd_kw_targets; auto. }
+    rewrite A3.
+    apply rebind_walk; auto.
   Qed.
 End Forward.
+
+(* ------------------------------------------------------------------ *)
+(* Part D: the bindings produced by a successful binding have the shape the
+   forwarding lemma needs *)
+
+Lemma rcons_ok x r b : rcons x r = Ok b -> exists b', r = Ok b' /\ b = x :: b'.
+Proof. destruct r; cbn [rcons]; [|discriminate]. intros H. inversion H. eauto. Qed.
+
+Lemma or_default_ok n p r b : or_default n p r = Ok b ->
+  exists d b', r = Ok b' /\ b = (n, BVal d) :: b'.
+Proof.
+  unfold or_default. destruct (p_default p); [|discriminate].
+  intros H. apply rcons_ok in H as [b' [H ->]]. eauto.
+Qed.
+
+Definition dict_of (sg : fsig) (kw : list (name * value)) : list (name * value) :=
+  filter (fun kv => negb (kw_target (demote sg) (fst kv))) kw.
+
+Lemma bind_params_shape sg kw ps : forall pos b,
+  bind_params (demote sg) (demote ps) pos kw = Ok b -> Forall2 (R (dict_of sg kw)) ps b.
+Proof.
+  induction ps as [|p r IH]; intros pos b H.
+  - cbn in H. inversion H. constructor.
+  - change (demote (p :: r)) with (demote_param p :: demote r) in H.
+    assert (Fin : forall bv pos' b', bind_params (demote sg) (demote r) pos' kw = Ok b' ->
+              b = (p_name p, bv) :: b' ->
+              match p_kind p with
+              | KVarArgs => exists vs, bv = BTuple vs
+              | KVarKw => bv = BDict (dict_of sg kw)
+              | _ => exists v, bv = BVal v
+              end -> Forall2 (R (dict_of sg kw)) (p :: r) b).
+    { intros bv pos' b' H1 -> H2. constructor; [split; auto|eauto]. }
+    destruct (p_kind p) eqn:K.
+    + unfold demote_param in H. rewrite K in H. cbn [bind_params p_kind p_name p_default] in H.
+      destruct pos as [|v pos'].
+      * destruct (lookup (p_name p) kw).
+        -- apply rcons_ok in H as [b' [H ->]]. eapply Fin; eauto.
+        -- unfold or_default in H. cbn [p_default] in H. destruct (p_default p); [|discriminate].
+           apply rcons_ok in H as [b' [H ->]]. eapply Fin; eauto.
+      * destruct (memb _ _); [discriminate|].
+        apply rcons_ok in H as [b' [H ->]]. eapply Fin; eauto.
+    + rewrite demote_param_other in H by congruence. cbn [bind_params] in H. rewrite K in H.
+      destruct pos as [|v pos'].
+      * destruct (lookup (p_name p) kw).
+        -- apply rcons_ok in H as [b' [H ->]]. eapply Fin; eauto.
+        -- apply or_default_ok in H as [d [b' [H ->]]]. eapply Fin; eauto.
+      * destruct (memb _ _); [discriminate|].
+        apply rcons_ok in H as [b' [H ->]]. eapply Fin; eauto.
+    + rewrite demote_param_other in H by congruence. cbn [bind_params] in H. rewrite K in H.
+      apply rcons_ok in H as [b' [H ->]]. eapply Fin; eauto.
+    + rewrite demote_param_other in H by congruence. cbn [bind_params] in H. rewrite K in H.
+      destruct (lookup (p_name p) kw).
+      * apply rcons_ok in H as [b' [H ->]]. eapply Fin; eauto.
+      * apply or_default_ok in H as [d [b' [H ->]]]. eapply Fin; eauto.
+    + rewrite demote_param_other in H by congruence. cbn [bind_params] in H. rewrite K in H.
+      apply rcons_ok in H as [b' [H ->]]. eapply Fin; eauto.
+Qed.
+
+Lemma keys_filter_In {A} (g : name * A -> bool) m k :
+  In k (keys (filter g m)) -> exists v, In (k, v) m /\ g (k, v) = true.
+Proof.
+  unfold keys. rewrite in_map_iff. intros [[k' v] [E H]]. cbn in E. subst k'.
+  apply filter_In in H. eauto.
+Qed.
+
+Lemma keys_filter_NoDup {A} (g : name * A -> bool) m : NoDup (keys m) -> NoDup (keys (filter g m)).
+Proof.
+  induction m as [|[k v] r IH]; cbn [filter keys map fst]; auto.
+  intros H. inversion H; subst. destruct (g (k, v)); auto.
+  cbn [keys map fst]. constructor; auto.
+  intros Hin. apply keys_filter_In in Hin as [v' [Hin _]]. apply H2.
+  change (In k (map fst r)). apply in_map_iff. now exists (k, v').
+Qed.
+
+Lemma wf_sig_parts s : wf_sig s = true -> order_ok s = true /\ NoDup (names s).
+Proof. unfold wf_sig. rewrite andb_true_iff, nodupb_NoDup. auto. Qed.
+
+Lemma bind_ok_parts s c b : bind s c = Ok b ->
+  NoDup (keys (c_kw c)) /\ bind_params s s (c_pos c) (c_kw c) = Ok b.
+Proof.
+  unfold bind. destruct (nodupb (keys (c_kw c))) eqn:N; [|discriminate]. cbn [negb].
+  destruct (_ && _); [discriminate|]. destruct (_ && _); [discriminate|].
+  intros H. split; auto. now apply nodupb_NoDup.
+Qed.
+
+(* the forwarded call binds to the same arguments, under either binder *)
+Lemma forward_faithful dm s c b : wf_sig s = true -> bind (demote s) c = Ok b ->
+  bind (map (tr dm) s) (forward s b) = Ok b.
+Proof.
+  intros Hwf Hb. apply wf_sig_parts in Hwf as [Ho Hn].
+  apply bind_ok_parts in Hb as [Hk Hb].
+  apply (rebind s (dict_of s (c_kw c))); auto.
+  - now apply keys_filter_NoDup.
+  - intros k Hin. apply keys_filter_In in Hin as [v [_ H]]. cbn [fst] in H. now apply negb_true_iff in H.
+  - eapply bind_params_shape. exact Hb.
+Qed.
+
+Lemma forward_getcallargs s c b : wf_sig s = true -> bind (demote s) c = Ok b ->
+  bind (demote s) (forward s b) = Ok b.
+Proof. intros Hwf Hb. exact (forward_faithful true s c b Hwf Hb). Qed.
+
+Lemma forward_real s c b : wf_sig s = true -> bind (demote s) c = Ok b ->
+  bind s (forward s b) = Ok b.
+Proof.
+  intros Hwf Hb. generalize (forward_faithful false s c b Hwf Hb).
+  unfold tr. now rewrite map_id.
+Qed.
+
+(* ------------------------------------------------------------------ *)
+(* What the decorated function does whenever the generated outer function
+   accepts the call *)
+
+Definition body_outcome (r : body_result) : outcome :=
+  match r with BReturned v => Returned v | BRaised e => Raised (RExn e) end.
+
+Definition end_message (t : string) (lvl : list positive) (include_result : bool) (r : body_result) : message :=
+  match r with
+  | BReturned v => end_success t lvl (if include_result then [(N_result, FResult v)] else [])
+  | BRaised e => end_failed t lvl (RExn e)
+  end.
+
+Lemma wrapper_accepted f o parent c b :
+  wf_sig (f_sig f) = true -> no_param_named_call (f_sig f) ->
+  bind (demote (f_sig f)) c = Ok b ->
+  wrapper f o parent c =
+    (body_outcome (f_body f b),
+     [start_message (action_type_of f o) (match parent with Some l => l | None => [] end) (logged_args o b);
+      end_message (action_type_of f o) (match parent with Some l => l | None => [] end)
+                  (o_include_result o) (f_body f b)]).
+Proof.
+  intros Hwf Hc Hb. unfold wrapper. rewrite Hb.
+  apply memb_false in Hc. rewrite Hc.
+  rewrite (forward_getcallargs _ c b) by auto.
+  unfold call_fn. rewrite (forward_real _ c b) by auto.
+  unfold body_outcome, end_message. now destruct (f_body f b).
+Qed.
+
+Lemma wrapper_rejected f o parent c :
+  bind (demote (f_sig f)) c = TypeErr -> wrapper f o parent c = (Raised RTypeError, []).
+Proof. intros H. unfold wrapper. now rewrite H. Qed.
+
+(* ------------------------------------------------------------------ *)
+(* C18: transparency *)
+
+Theorem C18_outcome_thm : forall (f : fn) (o : opts) (parent : option (list positive)) (c : fcall),
+  wf_sig (f_sig f) = true ->
+  no_param_named_call (f_sig f) ->
+  no_posonly_kw (f_sig f) c ->
+  fst (wrapper f o parent c) = call_fn f c.
+Proof.
+  intros f o parent c Hwf Hc Hg.
+  pose proof (bind_demote_same _ _ Hg) as E.
+  unfold call_fn. destruct (bind (f_sig f) c) as [b|] eqn:B.
+  - rewrite (wrapper_accepted f o parent c b); auto. cbn [fst]. now destruct (f_body f b).
+  - now rewrite wrapper_rejected.
+Qed.
+
+Lemma logged_args_spec o b k :
+  lookup k (logged_args o b) =
+  if included o k && negb (Pos.eqb k N_self) then lookup k b else None.
+Proof.
+  unfold logged_args, included. destruct (o_include_args o) as [inc|].
+  - rewrite lookup_select. cbn [lookup]. destruct (memb k inc); cbn [andb]; auto.
+    destruct (Pos.eqb k N_self) eqn:E; cbn [negb].
+    + apply Pos.eqb_eq in E. subst. now rewrite lookup_remove_key_same.
+    + apply Pos.eqb_neq in E. rewrite lookup_remove_key_other by auto. now destruct (lookup k b).
+  - cbn [andb]. destruct (Pos.eqb k N_self) eqn:E; cbn [negb].
+    + apply Pos.eqb_eq in E. subst. apply lookup_remove_key_same.
+    + apply Pos.eqb_neq in E. now apply lookup_remove_key_other.
+Qed.
+
+Lemma start_message_spec t lvl fields k :
+  lookup k (start_message t lvl fields) =
+  if Pos.eqb k N_action_status then Some (FStatus Started)
+  else if Pos.eqb k N_timestamp then Some FTime
+  else if Pos.eqb k N_task_uuid then Some FUuid
+  else if Pos.eqb k N_action_type then Some (FType t)
+  else if Pos.eqb k N_task_level then Some (FLevel (lvl ++ [1%positive]))
+  else option_map FArg (lookup k fields).
+Proof.
+  unfold start_message, identify.
+  destruct (Pos.eqb k N_task_level) eqn:E5.
+  { apply Pos.eqb_eq in E5. subst. rewrite lookup_dset_same. reflexivity. }
+  apply Pos.eqb_neq in E5. rewrite lookup_dset_other by auto.
+  destruct (Pos.eqb k N_action_type) eqn:E4.
+  { apply Pos.eqb_eq in E4. subst. rewrite lookup_dset_same. reflexivity. }
+  apply Pos.eqb_neq in E4. rewrite lookup_dset_other by auto.
+  destruct (Pos.eqb k N_task_uuid) eqn:E3.
+  { apply Pos.eqb_eq in E3. subst. rewrite lookup_dset_same. reflexivity. }
+  apply Pos.eqb_neq in E3. rewrite lookup_dset_other by auto.
+  destruct (Pos.eqb k N_timestamp) eqn:E2.
+  { apply Pos.eqb_eq in E2. subst. rewrite lookup_dset_same. reflexivity. }
+  apply Pos.eqb_neq in E2. rewrite lookup_dset_other by auto.
+  destruct (Pos.eqb k N_action_status) eqn:E1.
+  { apply Pos.eqb_eq in E1. subst. rewrite lookup_dset_same. reflexivity. }
+  apply Pos.eqb_neq in E1. rewrite lookup_dset_other by auto.
+  apply lookup_map_snd.
+Qed.
+
+Definition tail_fields (s : status) (t : string) (l : list positive) : message :=
+  [(N_action_status, FStatus s); (N_timestamp, FTime); (N_task_uuid, FUuid);
+   (N_action_type, FType t); (N_task_level, FLevel l)].
+
+Theorem C18_logged_thm : forall (f : fn) (o : opts) (parent : option (list positive)) (c : fcall) (b : bindings),
+  wf_sig (f_sig f) = true ->
+  no_param_named_call (f_sig f) ->
+  no_posonly_kw (f_sig f) c ->
+  bind (f_sig f) c = Ok b ->
+  let t := action_type_of f o in
+  let lvl := match parent with Some l => l | None => [] end in
+  exists start end_ : message,
+    (* exactly one action: its start and its end *)
+    snd (wrapper f o parent c) = [start; end_] /\
+    (* the start message: the five keys Action._start assigns, and otherwise exactly
+       Python's bindings without self, restricted to include_args *)
+    (forall k, lookup k start =
+       if Pos.eqb k N_action_status then Some (FStatus Started)
+       else if Pos.eqb k N_timestamp then Some FTime
+       else if Pos.eqb k N_task_uuid then Some FUuid
+       else if Pos.eqb k N_action_type then Some (FType t)
+       else if Pos.eqb k N_task_level then Some (FLevel (lvl ++ [1%positive]))
+       else if included o k && negb (Pos.eqb k N_self) then option_map FArg (lookup k b)
+       else None) /\
+    (* the end message: result iff include_result; exception and reason on failure *)
+    end_ = match f_body f b with
+           | BReturned v =>
+               (if o_include_result o then [(N_result, FResult v)] else []) ++
+               tail_fields Succeeded t (lvl ++ [2%positive])
+           | BRaised e =>
+               [(N_exception, FExcName (RExn e)); (N_reason, FReason (RExn e))] ++
+               tail_fields Failed t (lvl ++ [2%positive])
+           end.
+Proof.
+  intros f o parent c b Hwf Hc Hg B t lvl.
+  pose proof (bind_demote_same _ _ Hg) as E. rewrite B in E.
+  rewrite (wrapper_accepted f o parent c b); auto. cbn [snd].
+  eexists. eexists. split; [reflexivity|]. split.
+  - intros k. rewrite start_message_spec. fold t. fold lvl.
+    repeat (destruct (Pos.eqb k _); [reflexivity|]).
+    rewrite logged_args_spec. now destruct (_ && _).
+  - fold t. fold lvl. unfold end_message. destruct (f_body f b) as [v|e].
+    + destruct (o_include_result o); reflexivity.
+    + reflexivity.
+Qed.
+
+(* the decorator's default action type *)
+Theorem C18_type_default_thm : forall f o,
+  o_action_type o = None -> action_type_of f o = (f_module f ++ "." ++ f_qualname f)%string.
+Proof. intros f o H. unfold action_type_of. now rewrite H. Qed.
+
+(* an argument list the function rejects: TypeError and nothing is logged *)
+Theorem C18_invalid_call_thm : forall f o parent c,
+  no_posonly_kw (f_sig f) c ->
+  bind (f_sig f) c = TypeErr ->
+  wrapper f o parent c = (Raised RTypeError, []).
+Proof.
+  intros f o parent c Hg B. apply wrapper_rejected. now rewrite bind_demote_same.
+Qed.
+
+(* include_args must name parameters: otherwise ValueError at decoration time *)
+Theorem C18_decoration_thm : forall f o,
+  decorate_ok f o = true <->
+  match o_include_args o with None => True | Some inc => forall k, In k inc -> In k (names (f_sig f)) end.
+Proof.
+  intros f o. unfold decorate_ok. destruct (o_include_args o) as [inc|]; [|tauto].
+  rewrite forallb_forall. split; intros H k Hk; apply memb_In; auto.
+Qed.
+
+(* ------------------------------------------------------------------ *)
+(* The guards cannot be dropped *)
+
+Definition nm_x : name := 15%positive.
+Definition nm_kw : name := 19%positive.
+
+Definition const_fn (s : fsig) (v : value) : fn := mkFn s "m" "f" (fun _ => BReturned v).
+Definition default_opts : opts := mkOpts None None true.
+
+(* def f(x, /, **kwargs): return 500      f(1, x=2) *)
+Theorem C18_posonly_refuted_thm :
+  exists (f : fn) (o : opts) (c : fcall),
+    wf_sig (f_sig f) = true /\ no_param_named_call (f_sig f) /\
+    posonly_kw_clash (f_sig f) c = true /\
+    call_fn f c = Returned 500%Z /\
+    wrapper f o None c = (Raised RTypeError, []).
+Proof.
+  exists (const_fn [mkParam nm_x KPosOnly None; mkParam nm_kw KVarKw None] 500%Z), default_opts,
+         (mkCall [1%Z] [(nm_x, 2%Z)]).
+  repeat split; try (vm_compute; reflexivity).
+  vm_compute. intros [H|[H|[]]]; discriminate.
+Qed.
+
+(* def h(x, /): return x      h(x=1): the undecorated call is a TypeError, the decorated one returns *)
+Theorem C18_posonly_accepted_refuted_thm :
+  exists (f : fn) (o : opts) (c : fcall),
+    wf_sig (f_sig f) = true /\ no_param_named_call (f_sig f) /\
+    call_fn f c = Raised RTypeError /\
+    fst (wrapper f o None c) = Returned 1%Z /\
+    List.length (snd (wrapper f o None c)) = 2.
+Proof.
+  exists (mkFn [mkParam nm_x KPosOnly None] "m" "h"
+            (fun b => match lookup nm_x b with Some (BVal v) => BReturned v | _ => BReturned 0%Z end)),
+         default_opts, (mkCall [] [(nm_x, 1%Z)]).
+  repeat split; try (vm_compute; reflexivity).
+  vm_compute. intros [H|[]]; discriminate.
+Qed.
+
+(* def f(_call): return 7      f(3) *)
+Theorem C18_param_call_refuted_thm :
+  exists (f : fn) (o : opts) (c : fcall),
+    wf_sig (f_sig f) = true /\ no_posonly_kw (f_sig f) c /\
+    call_fn f c = Returned 7%Z /\
+    wrapper f o None c = (Raised RTypeError, []).
+Proof.
+  exists (const_fn [mkParam N_underscore_call KNormal None] 7%Z), default_opts, (mkCall [3%Z] []).
+  repeat split; try (vm_compute; reflexivity).
+  intros k [].
+Qed.
+
+(* ------------------------------------------------------------------ *)
+(* The hypotheses are satisfiable on a non-trivial case:
+     class K:
+         def f(self, logger, action_type=101, /, fields=102, *args, result, _serializers=103, **kwargs): return 500
+     K().f(1, 2, 3, 4, result=5, x=6, y=7)     inside an action whose next child is at [2; 3]
+   with include_args = [action_type; self; args; kwargs; logger] and include_result = false *)
+
+Definition nm_logger : name := 11%positive.
+Definition nm_serializers : name := 12%positive.
+Definition nm_fields : name := 13%positive.
+Definition nm_y : name := 16%positive.
+Definition nm_args : name := 18%positive.
+
+Definition ex_sig : fsig :=
+  [mkParam N_self KPosOnly None; mkParam nm_logger KPosOnly None; mkParam N_action_type KPosOnly (Some 101%Z);
+   mkParam nm_fields KNormal (Some 102%Z); mkParam nm_args KVarArgs None;
+   mkParam N_result KKwOnly None; mkParam nm_serializers KKwOnly (Some 103%Z); mkParam nm_kw KVarKw None].
+Definition ex_fn : fn := mkFn ex_sig "m" "K.f" (fun _ => BReturned 500%Z).
+Definition ex_call : fcall :=
+  mkCall [900%Z; 1%Z; 2%Z; 3%Z; 4%Z] [(N_result, 5%Z); (nm_x, 6%Z); (nm_y, 7%Z)].
+Definition ex_opts : opts :=
+  mkOpts None (Some [N_action_type; N_self; nm_args; nm_kw; nm_logger]) false.
+
+Example ex_wf : wf_sig ex_sig = true.
+Proof. vm_compute. reflexivity. Qed.
+
+Example ex_no_call : no_param_named_call ex_sig.
+Proof. vm_compute. intuition discriminate. Qed.
+
+Example ex_guard : no_posonly_kw ex_sig ex_call.
+Proof. intros k H. vm_compute in H. destruct H as [<-|[<-|[<-|[]]]]; reflexivity. Qed.
+
+Example ex_decorate : decorate_ok ex_fn ex_opts = true.
+Proof. vm_compute. reflexivity. Qed.
+
+Example ex_bind : bind ex_sig ex_call =
+  Ok [(N_self, BVal 900%Z); (nm_logger, BVal 1%Z); (N_action_type, BVal 2%Z); (nm_fields, BVal 3%Z);
+      (nm_args, BTuple [4%Z]); (N_result, BVal 5%Z); (nm_serializers, BVal 103%Z);
+      (nm_kw, BDict [(nm_x, 6%Z); (nm_y, 7%Z)])].
+Proof. vm_compute. reflexivity. Qed.
+
+Example ex_wrapper : wrapper ex_fn ex_opts (Some [2; 3]%positive) ex_call =
+  (Returned 500%Z,
+   [[(N_action_type, FType "m.K.f"); (nm_args, FArg (BTuple [4%Z]));
+     (nm_kw, FArg (BDict [(nm_x, 6%Z); (nm_y, 7%Z)])); (nm_logger, FArg (BVal 1%Z));
+     (N_action_status, FStatus Started); (N_timestamp, FTime); (N_task_uuid, FUuid);
+     (N_task_level, FLevel [2; 3; 1]%positive)];
+    tail_fields Succeeded "m.K.f" [2; 3; 2]%positive]).
+Proof. vm_compute. reflexivity. Qed.
+
+(* an invalid argument list for the same function: nothing is logged *)
+Example ex_invalid : wrapper ex_fn ex_opts None (mkCall [900%Z; 1%Z] []) = (Raised RTypeError, []).
+Proof. vm_compute. reflexivity. Qed.
